@@ -353,7 +353,7 @@ impl Driver for C20 {
                         // prices themselves, so only a coarse comparison (30% of the largest price) is possible there
                         // prices scale with the costs: residue on inactive rows does too
                         let cost_scale = spec.obj.iter().fold(0.0f64, |m, c| m.max(c.abs()));
-                        let price_scale = if largest > 0.0 && largest < 1e-4 { (0.3e5 * largest).max(0.03) } else { largest.max(cost_scale).max(1.0) };
+                        let price_scale = if largest > 0.0 && largest < 1e-4 { (0.3e5 * largest).max(0.1) } else { largest.max(cost_scale).max(1.0) };
                         if largest > 0.0 && largest < 1e-4 {
                             out.tag("tiny-price-model");
                         }
@@ -431,7 +431,7 @@ impl Driver for C20 {
         Some((format!("never-returns({})", c.kind), format!("worker ended with {}", c.kind)))
     }
     fn rule(&self) -> String {
-        "continuous LPs (<=5 variables, <=5 rows, named and unnamed rows, <=, >= and = rows, min and max, offsets, free / bounded / half-bounded variables). The exact rational LP solver computes the optimum and, for every row, the four difference quotients of the optimal value for right-hand side changes of +-1/8 and +-1/16; a model is used only when all four coincide for every row (value differentiable in every right-hand side: the dual solution is unique). Three doors: solve_real_lp_problem_clarabel on the LinearModel, ModelBuilder::solve_with(Clarabel) + shadow_price(name), source text through RoocSolver. Every named row must carry a price equal to the exact slope within 1e-5 of the larger of the model's largest price and largest cost coefficient (at least 1e-5 absolute); one model in eight has its objective scaled by 1e-6 or its rows by 1e6 so that genuine prices of 1e-6 occur, one in sixteen has its costs multiplied by 1e5 - there the comparison is coarse: within 30% of the largest price and never finer than 3e-7, enough to see a price that was dropped, zeroed or flipped (inactive rows: 0), no price may be listed for an unnamed or unknown row; one model in ten names three or more rows alike, the k-th of them must be reported as name__k (builder and text doors). non-trivial = distinct (door, model) with all prices confirmed 15% of the models prefix row names with underscores (__cap, _lim, a__b, ___).".into()
+        "continuous LPs (<=5 variables, <=5 rows, named and unnamed rows, <=, >= and = rows, min and max, offsets, free / bounded / half-bounded variables). The exact rational LP solver computes the optimum and, for every row, the four difference quotients of the optimal value for right-hand side changes of +-1/8 and +-1/16; a model is used only when all four coincide for every row (value differentiable in every right-hand side: the dual solution is unique). Three doors: solve_real_lp_problem_clarabel on the LinearModel, ModelBuilder::solve_with(Clarabel) + shadow_price(name), source text through RoocSolver. Every named row must carry a price equal to the exact slope within 1e-5 of the larger of the model's largest price and largest cost coefficient (at least 1e-5 absolute); one model in eight has its objective scaled by 1e-6 or its rows by 1e6 so that genuine prices of 1e-6 occur, one in sixteen has its costs multiplied by 1e5 - there the comparison is coarse: within 30% of the largest price and never finer than 1e-6, enough to see a price that was dropped, zeroed or flipped (inactive rows: 0), no price may be listed for an unnamed or unknown row; one model in ten names three or more rows alike, the k-th of them must be reported as name__k (builder and text doors). non-trivial = distinct (door, model) with all prices confirmed 15% of the models prefix row names with underscores (__cap, _lim, a__b, ___).".into()
     }
     fn thresholds(&self, tier: Tier) -> Thresholds {
         let s = tier.pick(4, 40);
